@@ -14,13 +14,13 @@ CHECKS = {
              text="Exhaustive over names x 2^5 definition subsets x 4 reference positions x 4 shells: the automaton's command items and the command function bodies of the emitted script equal the definition Usage.Chosen prescribes; definitions for other shells leave the script byte-identical.",
              ref="7/C11", note="Scripts of fish/zsh/pwsh are read, not executed."),
 }
-CHECKS["C01"] = dict(technique="TLC-generated command lines (Walk.tla) replayed in real bash; every recorded reply validated by TLC against the word-level meaning (Words.tla/BashCheck.tla)",
+CHECKS["C01"] = dict(technique="TLC-generated command lines (Walk.tla) replayed in real bash; every recorded reply validated by TLC against the word-level meaning (Words.tla/BashCheck.tla); the emitted function itself is modelled (BashVM.tla: design-level product with Words.tla whose disagreements are replayed in bash; BashStep.tla: trace validation of the script's own steps recorded through bash's DEBUG trap)",
              text="For each corpus grammar TLC enumerates every reachable position set of the word-level meaning with a shortest word sequence and the prefixes to type; the emitted script answers in a real bash 5.2 (both COMP_WORDBREAKS settings); TLC validates each (reply set, status) against the meaning computed from the generator's tree.",
              ref="7/C01", note="Bounded: word sequences <= 4, budgeted sample of (state, prefix) pairs because bash executions cost ~25 ms and do not parallelise here; readline not run; regions assigned to C09/C12 are skipped and counted.")
-CHECKS["C12"] = dict(technique="TLC-generated command lines (Walk.tla) over an exhaustive family of prefix-chain value sets, replayed in real bash; replies validated by TLC against the exact token-boundary dynamic programme of Words.tla (BashCheck.tla)",
+CHECKS["C12"] = dict(technique="TLC-generated command lines (Walk.tla) over an exhaustive family of prefix-chain value sets, replayed in real bash; replies validated by TLC against the exact token-boundary dynamic programme of Words.tla (BashCheck.tla); the emitted function itself is modelled (BashVM.tla: design-level product with Words.tla whose disagreements are replayed in bash; BashStep.tla: trace validation of the script's own steps recorded through bash's DEBUG trap)",
              text="For every non-empty subset of the prefix-chain universe {a,ab,abc,abcd,b,bc,abd} as the alternatives of a within-word expression (after a literal prefix, followed by a further word), every value and every proper prefix of it is typed as the cursor word and every value as an earlier word; the real bash's reply and status are validated by TLC against the word-level meaning.",
              ref="7/C12", note="Bounded to the stated universe plus random sets over a 3-letter alphabet (thorough); quick samples the sets with more than two values; only bash is executed.")
-CHECKS["C17"] = dict(technique="TLC-generated command lines (Walk.tla) replayed in real bash with logging probe commands; probe log, candidates and status validated by TLC against Words.tla RequiredCalls/AllowedProbes/ReplyOk (BashCheck.tla)",
+CHECKS["C17"] = dict(technique="TLC-generated command lines (Walk.tla) replayed in real bash with logging probe commands; probe log, candidates and status validated by TLC against Words.tla RequiredCalls/AllowedProbes/ReplyOk (BashCheck.tla); the emitted function itself is modelled (BashVM.tla: design-level product with Words.tla whose disagreements are replayed in bash; BashStep.tla: trace validation of the script's own steps recorded through bash's DEBUG trap)",
              text="Commands are probes that log identity, argument count and both arguments and print fixed lines (plain, tab-separated descriptions, candidates with blanks). For each generated command line TLC decides that every required invocation happened with exactly the documented arguments, that no invocation happened at a point where the grammar does not expect that command, that candidates are the text before the first tab filtered by the typed text, and that earlier words are accepted at command points exactly when they are candidates.",
              ref="7/C17", note="Only bash is executed; commands have fixed output; the number of invocations per command is not constrained (only their arguments and whether they are justified).")
 CHECKS["C05"] = dict(technique="TLC-enumerated layouts (LayoutGen.tla) and literal spellings (Spell.tla) printed by the generator; the tree recorded from Grammar::parse is compared with the printed tree by TLC (TreeCheck.tla)",
